@@ -43,6 +43,36 @@ static Plan gen_cvbr_long(uint64_t seed, int tier) {
   return p;
 }
 
+// constrained VBR in the MDCT layer while the bitrate keeps changing: the reservoir carries the debt from one rate to the next
+static Plan gen_cvbr_switch(uint64_t seed, int tier) {
+  Rng r(seed ^ 0x5C17);
+  Plan p; p.hdr["scenario"] = "ratectl-cvbr-switching";
+  int ch = (int)r.range(1, 2);
+  bool lowdelay = r.chance(0.5);
+  p.ops.push_back(mkop("ENCNEW", {K_SINGLE, r.range(2, 4), ch, lowdelay ? 2 : r.range(0, 1), 0, 0, -1, (int64_t)r.range(1, 1 << 30)}));
+  p.ops.push_back(mkop("DECNEW", {r.range(0, 4), r.range(0, 1), -1, r.range(0, 2)}));
+  p.ops.push_back(mkop("CTL", {OPUS_SET_VBR_REQUEST, 1}));
+  p.ops.push_back(mkop("CTL", {OPUS_SET_VBR_CONSTRAINT_REQUEST, 1}));
+  if (!lowdelay) p.ops.push_back(mkop("CTL", {11002, 1002}));
+  if (r.chance(0.4)) p.ops.push_back(mkop("CTL", {OPUS_SET_COMPLEXITY_REQUEST, r.range(0, 10)}));
+  std::vector<int> rates;
+  int style = (int)r.range(0, 2);
+  if (style == 0) rates = {(int)r.pick({128000, 192000, 256000}), (int)r.pick({8000, 12000, 16000, 24000})};            // far apart
+  else if (style == 1) rates = {(int)r.pick({32000, 48000, 64000}), (int)r.pick({16000, 24000}), (int)r.pick({96000, 128000})};
+  else for (int i = 0; i < 4; i++) rates.push_back((int)r.range(8000, 256000));
+  p.ops.push_back(mkop("CTL", {OPUS_SET_BITRATE_REQUEST, rates[0]}));
+  int fam = r.pick({(int)SRC_BURSTYSTEREO, (int)SRC_NOISE, (int)SRC_CLICKS, (int)SRC_MUSIC, (int)SRC_ONSETS, (int)SRC_TONES, (int)SRC_VOICED});
+  p.ops.push_back(mkop("SRC", {fam, r.pick({110, 220, 440, 1000, 3000}), r.pick({100, 300, 500, 900}), r.range(1, 1000), r.range(100, 900)}));
+  int fi = r.weighted({2, 2, 3, 5, 0, 0, 0, 0, 0});
+  double secs = tier ? r.range(7, 14) : 6.8, t = 0; size_t ri = 0; int hold = (int)r.range(3, 20), left = hold;
+  while (t < secs) {
+    if (--left <= 0) { ri = (ri + 1) % rates.size(); p.ops.push_back(mkop("CTL", {OPUS_SET_BITRATE_REQUEST, rates[ri]})); left = r.chance(0.3) ? (int)r.range(3, 20) : hold; }
+    p.ops.push_back(mkop("ENC", {fi, r.pick({1276, 1500, 4000}), 0}));
+    t += kFrames48[fi] / 48000.0;
+  }
+  return p;
+}
+
 // long packets (60-120 ms) at high rates into large buffers: the per-frame budgets of the repacketised path
 static Plan gen_bigframe(uint64_t seed, int tier) {
   Rng r(seed ^ 0xB16F);
@@ -70,6 +100,7 @@ static Plan gen_bigframe(uint64_t seed, int tier) {
 static Plan gen(uint64_t seed, int tier) {
   if ((seed >> 8) % 10 == 0 || getenv("OPSIM_C05_LONGONLY")) return gen_cvbr_long(seed, tier);
   if ((seed >> 8) % 10 == 1) return gen_bigframe(seed, tier);
+  if ((seed >> 8) % 10 == 2 || getenv("OPSIM_C05_SWITCHONLY")) return gen_cvbr_switch(seed, tier);
   Plan p = gen_lockstep(seed, tier, 1);
   // rate-control emphasis: make sure CBR / CVBR and bitrate changes are well represented
   Rng r(seed ^ 0xC05);
